@@ -11,7 +11,7 @@ import (
 // Send indication gate: exactly one datagram leaves, from the sender's own relay socket, iff the
 // sender's allocation holds a permission for the peer IP; otherwise nothing is emitted anywhere.
 //
-//verif:props=C01,C04,C05 bounds="two allocations (distinct 5-tuples) each with one permission for an arbitrary IPv4/IPv6 peer; sender = arbitrary IPv4 address; DATA 0..8 (quick) / 0..32 (thorough) bytes; arbitrary peer address incl. same IP other port"
+//verif:props=C01,C04,C05,C02,C07 replay=model bounds="two allocations (distinct 5-tuples) each with one permission for an arbitrary IPv4/IPv6 peer; sender = arbitrary IPv4 address; DATA 0..8 (quick) / 0..32 (thorough) bytes; arbitrary peer address incl. same IP other port"
 func VerifHarness_C01_send_gate() {
 	s := vNewSrv(false, false)
 	c1, c2 := allocation.VUDPAddr4(), allocation.VUDPAddr4()
@@ -25,7 +25,12 @@ func VerifHarness_C01_send_gate() {
 	peer := proto.PeerAddress{IP: allocation.VIP(), Port: allocation.VPort()}
 	data := vBytes(8 + 24*vTier())
 	msg := vNewMsg(stun.MethodSend, stun.ClassIndication, peer, proto.Data(data))
+	permA, permB := a.GetPermission(pa), b.GetPermission(pb)
+	vAssume(permA != nil && permB != nil)
 	err := handleSendIndication(s.request(src), msg)
+	// only CreatePermission and ChannelBind refresh a permission (RFC 5766 section 8): relaying data does not keep it alive
+	vAssert(vAnd(vTimerResets(permA.VTimer()) == 0, vTimerResets(permB.VTimer()) == 0), "C02.sending_data_does_not_extend_a_permission")
+	vAssert(vAnd(vTimerResets(permA.VTimer()) == 0, vTimerResets(permB.VTimer()) == 0), "C07.sending_data_does_not_refresh_a_permission")
 	fromA, fromB := allocation.VSameUDP(src, c1), allocation.VSameUDP(src, c2)
 	authorised := vOr(vAnd(fromA, vIPEq(peer.IP, pa.IP)), vAnd(fromB, vIPEq(peer.IP, pb.IP)))
 	ra, rb := a.VRelay(), b.VRelay()
